@@ -67,6 +67,7 @@ func checkCLI(cfg *propCfg, tier string, seed uint64, scratch string, start time
 	stats := map[string]int64{}
 	distinct := map[uint64]struct{}{}
 	var samples []any
+	sampleShapes := map[string]bool{}
 	var viols []replayFile
 	vkeys := map[string]bool{}
 	var evals, nontrivial int64
@@ -105,8 +106,12 @@ func checkCLI(cfg *propCfg, tier string, seed uint64, scratch string, start time
 				}
 				if out.Nontrivial > 0 {
 					distinct[out.Key] = struct{}{}
-					if len(samples) < 5 && out.Sample != nil {
-						samples = append(samples, out.Sample)
+					if m, ok := out.Sample.(map[string]any); ok && len(samples) < 6 {
+						sh := fmt.Sprint(m["shape"])
+						if !sampleShapes[sh] {
+							sampleShapes[sh] = true
+							samples = append(samples, out.Sample)
+						}
 					}
 				}
 				if !out.Exhaustive {
